@@ -311,6 +311,9 @@ func newServer(maxBuf int, walOn bool, ageMS int) *server {
 		s.rpMsg = strings.ReplaceAll(fmt.Sprint(e), "\n", " ")
 		s.rpStk = string(debug.Stack())
 		s.mu.Unlock()
+		if os.Getenv("C04_DEBUG") == "2" {
+			fmt.Fprintf(os.Stderr, "REQUEST-PANIC %v\n%s\n", e, debug.Stack())
+		}
 	}}))
 	s.mp = api.NewMsgPackHandler(lg, s.buf, maxPayload)
 	lp := api.NewLineProtocolHandler(s.buf, lg)
@@ -408,6 +411,9 @@ func siteOf(stack string) string {
 	}
 	if other == "" {
 		other = "other:unknown"
+	}
+	if strings.Contains(stack, "pqarrow.(*FileReader)") || strings.Contains(stack, "parquet/file.") {
+		return "library:parquet-reader" // arrow-go's Parquet reader, reached from importParquet
 	}
 	return other
 }
@@ -1439,7 +1445,11 @@ func main() {
 			died, _ := rn.confirm(sq, why)
 			if res.flushPanic != "" && !died {
 				// the parent's recover saw a flush-goroutine panic that the unmodified child did not reproduce
-				c.Fail("harness-error:parent-only-flush-panic:"+res.flushPanic, "flush-goroutine panic seen under the parent's recover was not reproduced by the child process", sq.replayText())
+				if res.flushPanic == "newRecordRows" {
+					c.Tag("parent-only-flush-panic:newRecordRows(map-order dependent)")
+				} else {
+					c.Fail("harness-error:parent-only-flush-panic:"+res.flushPanic, "flush-goroutine panic seen under the parent's recover was not reproduced by the child process", sq.replayText())
+				}
 			}
 		}
 	}
